@@ -19,6 +19,12 @@
 (*  rec  recursion forms x depth x stack depth limit                         *)
 (*  acc  Value / Object accessors x value kind                               *)
 (*  irq  host interrupt functions                                            *)
+(*  esc  escape sequences (complete / truncated) in string literals,         *)
+(*       identifiers and regular expression literals                         *)
+(*  hist histories (depth <= 3, Deep: sampled depth 4) of array-shape        *)
+(*       operations                                                          *)
+(*  thr  uncaught throw of every kind of value through every entry point     *)
+(*  copy Otto.Copy() of runtimes in various states                           *)
 EXTENDS Naturals, Sequences, SequencesExt, FiniteSets, TLC, Json, Randomization, C02Fns
 CONSTANTS OpenDev, Fam, NSel, Deep
 VARIABLES blk, cs
@@ -52,6 +58,14 @@ NestCase(api, ni, rep) == [fam |-> "src", api |-> api, nest |-> S!Nestings[ni].n
 RecLimits == 0..8
 RecCase(form, d, l, mode) == [fam |-> "rec", form |-> form, d |-> d, l |-> l, mode |-> mode]
 AllRecForms == S!RecForms \o S!UnboundedOnly
+NE == Len(S!EscItems)
+NH == Len(S!HistOps)
+EscAPIs == <<"Run", "Compile", "evalfn", "Function", "Eval", "CompileRun">>
+Items(s) == SelectSeq(s, LAMBDA x : x > 0)         \* 0 = no item at this position
+EscCase(api, ctx, items, term) == [fam |-> "src", api |-> api, esc |-> [ctx |-> ctx, items |-> items, term |-> term],
+                                   bytes |-> S!EscText(ctx, items, term)]
+HistCase(ops) == [fam |-> "hist", ops |-> ops]
+AllThrowVals == S!ThrowVals \o Kinds
 IrqForms == <<"loop", "try", "finally", "fncall">>
 IrqArms == <<"panic", "return", "none">>
 
@@ -68,6 +82,10 @@ Init == /\ cs = None
            \/ Want("rec") /\ blk \in {<<"rec", i, 0>> : i \in 1..Len(AllRecForms)}
            \/ Want("acc") /\ blk \in {<<"acc", ki, 0>> : ki \in 1..Len(S!AccKinds)}
            \/ Want("irq") /\ blk = <<"irq", 0, 0>>
+           \/ Want("esc") /\ blk \in {<<"esc", i1, i2>> : i1 \in 0..NE, i2 \in (IF Deep = 1 THEN 0..NE ELSE {0})}
+           \/ Want("hist") /\ blk \in {<<"hist", o1, o2>> : o1 \in 1..NH, o2 \in 1..NH}
+           \/ Want("thr") /\ blk \in {<<"thr", e, 0>> : e \in 1..Len(S!ThrowEntries)}
+           \/ Want("copy") /\ blk = <<"copy", 0, 0>>
 
 Cases(b) ==
     LET fam == b[1]  i == b[2]  j == b[3]
@@ -112,6 +130,21 @@ Cases(b) ==
                   : S!AccCaseOK(c.acc, c.kind, c.l)}
           [] fam = "irq" ->
                {[fam |-> "irq", form |-> IrqForms[f], arm |-> IrqArms[a]] : f \in 1..Len(IrqForms), a \in 1..Len(IrqArms)}
+          [] fam = "esc" ->
+               \* quick: <<i, x>> for every x (length <= 2); Deep: <<i, j, x>> (length <= 3)
+               LET ctxs == {S!EscContexts[x] : x \in 1..Len(S!EscContexts)}
+                   terms == {S!EscTerms[x] : x \in 1..Len(S!EscTerms)}
+               IN  {c \in {EscCase(api, ctx, Items(<<i, j, x>>), term) :
+                               api \in {EscAPIs[y] : y \in 1..Len(EscAPIs)}, ctx \in ctxs, term \in terms, x \in 0..NE}
+                      : c.esc.ctx \in {"dq", "sq"} \/ c.esc.term = "closed"}
+          [] fam = "hist" ->
+               {HistCase(<<S!HistOps[i], S!HistOps[j]>>)} \cup {HistCase(<<S!HistOps[i], S!HistOps[j], S!HistOps[k]>>) : k \in 1..NH}
+               \cup (IF Deep = 1 THEN {HistCase(<<S!HistOps[i], S!HistOps[j], S!HistOps[(p % NH) + 1], S!HistOps[(p \div NH) + 1]>>) :
+                                          p \in RandomSubset(40, 0..(NH * NH - 1))} ELSE {})
+          [] fam = "thr" ->
+               {[fam |-> "thr", entry |-> S!ThrowEntries[i], val |-> AllThrowVals[v]] : v \in 1..Len(AllThrowVals)}
+          [] fam = "copy" ->
+               {[fam |-> "copy", setup |-> S!CopySetups[x]] : x \in 1..Len(S!CopySetups)}
 
 (* One TLC state per BLOCK: its cases are evaluated (in parallel, by the worker *)
 (* that generates the state) inside the invariants.  cs = 1 marks the state    *)
@@ -119,21 +152,29 @@ Cases(b) ==
 Next == cs = None /\ UNCHANGED blk /\ cs' = [fam |-> "block"]
 
 (* the expectation of a case under an instance of the specification *)
-Expect(FnE(_, _, _, _), AccE(_, _, _), RecE(_, _, _, _), IrqE(_, _), SrcE(_, _), NestE(_, _, _), c) ==
+Expect(FnE(_, _, _, _), AccE(_, _, _), RecE(_, _, _, _), IrqE(_, _), SrcE(_, _), NestE(_, _, _), EscE(_, _, _, _), HistE(_), ThrE(_, _), CopyE(_), c) ==
     CASE c.fam = "fn" -> [reply |-> FnE(Fns[c.fi], c.route, c.recv, c.args), val |-> ""]
       [] c.fam = "acc" -> [reply |-> AccE(c.acc, c.kind, c.l), val |-> ""]
       [] c.fam = "rec" -> RecE(c.form, c.d, c.l, c.mode)
       [] c.fam = "irq" -> IrqE(c.form, c.arm)
-      [] c.fam = "src" -> [reply |-> IF "toks" \in DOMAIN c THEN SrcE(c.api, c.toks) ELSE NestE(c.api, c.nest, c.rep), val |-> ""]
-StrictE(c) == Expect(S!FnExpect, S!AccExpect, S!RecExpect, S!IrqExpect, S!SrcExpect, S!NestExpect, c)
-LooseE(c) == Expect(L!FnExpect, L!AccExpect, L!RecExpect, L!IrqExpect, L!SrcExpect, L!NestExpect, c)
+      [] c.fam = "src" -> [reply |-> IF "toks" \in DOMAIN c THEN SrcE(c.api, c.toks)
+                                     ELSE IF "esc" \in DOMAIN c THEN EscE(c.api, c.esc.ctx, c.esc.items, c.esc.term)
+                                     ELSE NestE(c.api, c.nest, c.rep), val |-> ""]
+      [] c.fam = "hist" -> [reply |-> HistE(c.ops), val |-> ""]
+      [] c.fam = "thr" -> [reply |-> ThrE(c.entry, c.val), val |-> ""]
+      [] c.fam = "copy" -> [reply |-> CopyE(c.setup), val |-> ""]
+StrictE(c) == Expect(S!FnExpect, S!AccExpect, S!RecExpect, S!IrqExpect, S!SrcExpect, S!NestExpect, S!EscExpect, S!HistExpect, S!ThrowExpect, S!CopyExpect, c)
+LooseE(c) == Expect(L!FnExpect, L!AccExpect, L!RecExpect, L!IrqExpect, L!SrcExpect, L!NestExpect, L!EscExpect, L!HistExpect, L!ThrowExpect, L!CopyExpect, c)
 
 (* not generated: resource matters (see Totality!Heavy) and the slow witnesses of open deviations *)
 Skipped(c) ==
-    c.fam = "fn" /\ LET f == Fns[c.fi] IN
-       \/ S!Heavy(f, S!ThisOf(c.route, c.recv), c.args)
-       \/ L!Heavy(f, L!ThisOf(c.route, c.recv), c.args)
-       \/ L!FnSlowSkip(f, c.route, c.recv, c.args)
+    \/ c.fam = "fn" /\ LET f == Fns[c.fi] IN
+          \/ S!Heavy(f, S!ThisOf(c.route, c.recv), c.args)
+          \/ L!Heavy(f, L!ThisOf(c.route, c.recv), c.args)
+          \/ L!FnSlowSkip(f, c.route, c.recv, c.args)
+    \* under an open deviation whose reply is a process death: one witness per form / value
+    \/ c.fam = "rec" /\ L!RecExpect(c.form, c.d, c.l, c.mode).reply.resource /\ ~(c.l = 50)
+    \/ c.fam = "thr" /\ L!ThrowExpect(c.entry, c.val).resource /\ ~(c.entry \in {"Run", "ObjectGet"})
 
 Live == {c \in Cases(blk) : ~Skipped(c)}
 
